@@ -1156,6 +1156,67 @@ def main(argv):
                               "float_leaves": sum(count_floats(d) for d in xdocs),
                               "text_bytes": sum(len(f[0]) // 2 for f in xr_f)}
 
+    # ---------------------------------------------------------------- XECHO: the echo program, model vs the real binary
+    # cli_text_echo (coq/JsonWf.v) with the exact reader and C16's executable ryu reference as printer, against
+    # `blots --input=<text> 'output x = inputs.<key>'`: stdout byte for byte, or failure on both sides
+    if fixed_build:
+        n_xe = 140 if quick else 2000
+        xe_jobs = []
+        xe_kinds = {}
+        while len(xe_jobs) < n_xe:
+            kind = rng.choice(["obj", "obj", "obj", "fancy", "fancy", "dup", "missing", "bare", "bare", "malformed", "nums"])
+            d = gen_doc(rng, 1 + rng.below(5))
+            if kind == "nums":
+                d = ("a", [("d", gen_bits(rng, False)) for _ in range(1 + rng.below(6))]
+                     + [("u", rng.choice([0, 1, (1 << 53) + 1, (1 << 63), (1 << 64) - 1])), ("i", -rng.choice([1, (1 << 53) + 1, 1 << 63]))])
+            t = doc_to_text(d, rng, fancy=(kind == "fancy"))
+            key, prog = "x", ECHO
+            if kind in ("obj", "fancy", "nums"):
+                text = '{"x":' + t + "}"
+            elif kind == "dup":
+                text = '{"x":' + doc_to_text(gen_doc(rng, 2), rng) + ',"y":0, "x" : ' + t + "}"
+            elif kind == "missing":
+                text = '{"y":' + t + "}"
+            elif kind == "bare":
+                if d[0] == "o":
+                    continue
+                text, key, prog = t, "value_1", ECHO1
+            else:
+                text = '{"x":' + t + "}"
+                i = rng.below(len(text))
+                text = text[:i] + text[i + 1:] if rng.chance(1, 2) else text[:i]
+            try:
+                if tree_has_reserved(loads_tok(text), fn_table):
+                    continue
+            except Exception:
+                pass
+            if "\x00" in text:
+                continue            # not passable as a process argument
+            xe_kinds[kind] = xe_kinds.get(kind, 0) + 1
+            xe_jobs.append((kind, text, key, prog))
+        with ThreadPoolExecutor(max_workers=8) as ex:
+            xe_real = list(ex.map(lambda j: run_cli(cli, ["--input=" + j[1], j[3]]), xe_jobs))
+        try:
+            xe_model = c.coq_eval_batch(XREQS, "", ['c06_xecho_line (hx "%s") "%s" "x"' % (hx(j[1]), j[2]) for j in xe_jobs],
+                                        "c06xecho", shard=10)
+        except c.BrokenTie as e:
+            res.tie_broken(e.what, e.detail)
+            xe_model = [None] * len(xe_jobs)
+        xe_mism = []
+        xe_err = 0
+        for (kind, text, key, prog), (rc, out, err), m in zip(xe_jobs, xe_real, xe_model):
+            real = "OK:" + out.rstrip("\n").encode("utf-8").hex() if rc == 0 else "ERR"
+            xe_err += rc != 0
+            if m is None or m != real:
+                xe_mism.append((kind, text, prog, real, m, err))
+        if xe_mism:
+            kind, text, prog, real, m, err = xe_mism[0]
+            res.tie_broken("correspondence C06/XECHO: the text-level echo model (cli_text_echo) and the real binary disagree "
+                           "on %d of %d inputs" % (len(xe_mism), len(xe_jobs)),
+                           "first (%s): blots --input=%r %r -> %s %s ; model=%s" % (kind, text[:300], prog, real[:300], err[:100], (m or "")[:300]))
+        res.streams["XECHO"] = {"inputs": len(xe_jobs), "mismatches": len(xe_mism), "kinds": xe_kinds,
+                                "failing_on_both_sides": xe_err}
+
     # ---------------------------------------------------------------- search 1: in process, THROUGH TEXT
     n_rt = 4000 if quick else 60000
     rts = []
@@ -1347,8 +1408,8 @@ def main(argv):
 
     x_cases = x_ok = 0
     if fixed_build:
-        x_cases = len(nbits) + len(xbits) + len(xtexts2) + len(xdocs)
-        x_ok = x_cases - len(xn_mism) - len(xp_bad) - len(xp_mism) - len(xr_mism)
+        x_cases = len(nbits) + len(xbits) + len(xtexts2) + len(xdocs) + len(xe_jobs)
+        x_ok = x_cases - len(xn_mism) - len(xp_bad) - len(xp_mism) - len(xr_mism) - len(xe_mism)
     res.coverage["evaluations"] = (len(vals) + len(docs) + len(rts) + 2 * len(jobs) + len(nbits) + len(texts)
                                    + len(pdocs) + x_cases)
     res.coverage["distinct_nontrivial"] = (len({enc_value(v) for v in vals if v[0] in ("list", "rec")})
